@@ -38,6 +38,7 @@ fn hostile_inputs(m: &MDesc, n: usize, seed: u64) -> Vec<Vec<In>> {
 /// outcome of constructing and then driving an instance
 fn drive(m: &MDesc, par: &Par, pdesc: &str, documented_invalid: bool, seed: u64, r: &mut Report) {
 	r.eval(1);
+	r.case_named(m.name, &[10, reg::json_hash(&par.show()), seed]);
 	let n = par.len();
 	let streams = hostile_inputs(m, n.min(300), seed);
 	let init = streams[0][0].clone();
@@ -244,6 +245,7 @@ fn candle_streams(seed: u64) -> Vec<Vec<Candle>> {
 /// build the config from a JSON object, validate, init, drive
 fn drive_indicator(d: &reg::IDesc, base: &dyn DC, obj: &Map<String, Value>, desc: &str, seed: u64, r: &mut Report) {
 	r.eval(1);
+	r.case_named(d.name, &[101, reg::json_hash(&Value::Object(obj.clone())), seed]);
 	let case = |what: &str| json!({"indicator": d.name, "config": obj, "what": what, "profile": PROFILE});
 	// deserialization itself may legitimately fail (e.g. f32 overflow): not our concern
 	let Ok(Ok(cfg)) = guard(|| base.de(&Value::Object(obj.clone()))) else { return };
@@ -496,6 +498,7 @@ fn text_parsing(ctx: &Ctx, r: &mut Report) {
 			})
 			.collect();
 		r.eval(3);
+		r.case_named(&s, &[102]);
 		if let Err(p) = guard(|| MA::from_str(&s).is_ok()) {
 			r.violate(&format!("C10|MA::from_str|panic:{}|profile={PROFILE}", p.class()), &p.msg, || json!({"text": s}));
 		}
